@@ -44,7 +44,24 @@ def outJ (o : Except Unit (List (K × Nat))) : Json :=
   | .error _ => .str "error"
   | .ok l => .arr #[.str "ok", .arr (l.map fun kw => Json.arr #[.str kw.1, .num kw.2]).toArray]
 
+def bytesJ (l : List Nat) : Json := .arr (l.map fun (b : Nat) => (Json.num (b : JsonNumber))).toArray
+
 def handle (j : Json) : Except String Json := do
+  if let .ok nj := j.getObjVal? "name" then
+    -- the file names of one key: `cache.name_fn(key)` under the generated scheme and under the pinned one, the
+    -- temporary sibling `_pickle_save` writes to, and the decoding that shows the name determines `repr(key)`
+    let str ← jList jNat (← field nj "str")
+    let repr ← jList jNat (← field nj "repr")
+    let pid ← jNat (← field nj "pid")
+    let key : List Nat × List Nat := (str, repr)
+    let final := defaultName Gen.nameScheme Prod.fst Prod.snd key
+    return Json.mkObj [
+      ("final", bytesJ final),
+      ("plain", bytesJ (defaultName .plainStr Prod.fst Prod.snd key)),
+      ("tmp", bytesJ (tmpName Gen.tmpSep Gen.tmpSuffix final pid)),
+      ("decoded", bytesJ (pctDecode (final.take (final.length - 2)))),
+      ("safe", .bool (pathSafe (tmpName Gen.tmpSep Gen.tmpSuffix final pid) && pathSafe final)),
+      ("partsOk", .bool (tmpPartsOk Gen.tmpSep Gen.tmpSuffix))]
   let mode ← jMode (← field j "mode")
   let tbl ← jList (jPair jNat jNat) (← field j "sizes")
   let size := sizeOf tbl
@@ -64,23 +81,48 @@ def handle (j : Json) : Except String Json := do
       | .arr #[.str k, .str "tmp", w, p] => fs := fs.set (.tmp k) (.data (← jNat w) (← jNat p))
       | _ => throw s!"bad fs0 entry {e.compress}"
     let mut outs : Array Json := #[]
+    -- the interrupted runs since the last complete run / planting, and the directory they started from: after every
+    -- interrupted step the whole history is replayed through `crashHistory` and must give the same directory
+    let mut hist : List (Interrupted K Nat) := []
+    let mut fsBase := fs
     for st in ← jArr (← field j "script") do
       match st with
       | .arr #[.str "crash", pj] =>
         let prog ← jList (jPair jStr jProgress) pj
-        fs := crashedRun mode size (fun (v : Nat) => v) (fun k => (prog.lookup k).getD .notStarted) fs inputs
-        outs := outs.push (Json.mkObj [("fs", snapshot fs keys)])
+        let h : Interrupted K Nat := .pool (fun k => (prog.lookup k).getD .notStarted) inputs
+        fs := h.apply mode size (fun (v : Nat) => v) fs
+        hist := hist ++ [h]
+        let same := (snapshot (crashHistory mode size (fun (v : Nat) => v) fsBase hist) keys).compress == (snapshot fs keys).compress
+        outs := outs.push (Json.mkObj [("fs", snapshot fs keys), ("history_ok", .bool same)])
       | .arr #[.str "seqcrash", .str victim, c] =>
-        fs := runKilled mode size (fun (v : Nat) => v) victim (← jNat c) fs inputs
+        let h : Interrupted K Nat := .seq victim (← jNat c) inputs
+        fs := h.apply mode size (fun (v : Nat) => v) fs
+        hist := hist ++ [h]
+        let same := (snapshot (crashHistory mode size (fun (v : Nat) => v) fsBase hist) keys).compress == (snapshot fs keys).compress
+        outs := outs.push (Json.mkObj [("fs", snapshot fs keys), ("history_ok", .bool same)])
+      | .arr #[.str "plant", ents] =>
+        -- files put into the directory from outside, between runs
+        for e in ← jArr ents do
+          match e with
+          | .arr #[.str k, .str "final", w, p] => fs := fs.set (.final k) (.data (← jNat w) (← jNat p))
+          | .arr #[.str k, .str "tmp", w, p] => fs := fs.set (.tmp k) (.data (← jNat w) (← jNat p))
+          | _ => throw s!"bad plant entry {e.compress}"
+        hist := []
+        fsBase := fs
         outs := outs.push (Json.mkObj [("fs", snapshot fs keys)])
       | .arr #[.str "run"] =>
         match parallelise Gen.refusesDuplicateKeys mode size (fun (v : Nat) => v) fs inputs with
         | none =>
           outs := outs.push (Json.mkObj [("out", .str "refused"), ("calls", .arr #[]), ("fs", snapshot fs keys)])
         | some r =>
+          hist := []
+          fsBase := r.fs
+          -- the same inputs processed in reverse order and reported in input order (`pool.map`), and the uncached run
+          let sched := runSched mode size (fun (v : Nat) => v) fs inputs.reverse inputs
           fs := r.fs
           outs := outs.push (Json.mkObj [("out", outJ r.out),
-            ("calls", .arr (r.calls.map Json.str).toArray), ("fs", snapshot fs keys)])
+            ("calls", .arr (r.calls.map Json.str).toArray), ("fs", snapshot fs keys),
+            ("sched", outJ sched), ("uncached", outJ (.ok (uncached (fun (v : Nat) => v) inputs)))])
       | _ => throw s!"bad script step {st.compress}"
     pure (.arr outs)
 
